@@ -28,6 +28,7 @@ import Distill.Model.OpenGraph
 import Distill.Model.SchemaOrg
 import Distill.Model.MarkupPage
 import Distill.Model.Srcset
+import Distill.Model.AbsURL
 namespace Distill.Slices
 open Distill Distill.Proto
 
@@ -295,6 +296,12 @@ def wordcounterSlice : P String := do
   let c := selectCounter sample.toList
   let name := match c with | .full => "Full" | .letter => "Letter" | .fast => "Fast"
   pure s!"{name} {c.count text.toList}"
+
+/-- `createabs url requestAbs parses resolved` → `CreateAbsoluteURL(url, base)` -/
+def createabsSlice : P String := do
+  let url ← str
+  let ra ← bool; let ps ← bool; let rs ← str
+  pure (hex (AbsURL.create url ⟨ra, ps, rs⟩))
 
 /-- `srcset value n (question answer)*` → URLs `GetSrcSetURLs` returns | what `makeSrcSetAbsolute`
 writes, `CreateAbsoluteURL` answered from the table (a question not in the table is reported, never
@@ -655,6 +662,7 @@ def dispatch (slice : String) : Option (P String) :=
   | "countwords" => some countWordsSlice
   | "wordcounter" => some wordcounterSlice
   | "srcset" => some srcsetSlice
+  | "createabs" => some createabsSlice
   | "strip" => some stripSlice
   | "title" => some titleSlice
   | "textblocks" => some textblocksSlice
